@@ -63,12 +63,14 @@ Record cbrec := {
   cb_ctor : nat;             (* 0 not constructed, 1 constructor running, 2 constructor returned *)
   cb_reg : bool;             (* add_callback returned true: the object keeps its state_ pointer *)
   cb_dtor : nat;             (* 0 alive, 1 destructor running, 2 destructor returned *)
-  cb_inctor : bool           (* the (only) invocation happened inside the constructor *)
+  cb_inctor : bool;          (* the (only) invocation happened inside the constructor *)
+  cb_cthr : option nat;      (* thread that runs / ran the constructor *)
+  cb_deq : bool              (* dequeued by request_stop's loop (as opposed to unlinked by the destructor) *)
 }.
 
 Definition cb0 : cbrec :=
   {| cb_queued := false; cb_finished := false; cb_isrem := None; cb_runs := 0; cb_running := None;
-     cb_ctor := 0; cb_reg := false; cb_dtor := 0; cb_inctor := false |}.
+     cb_ctor := 0; cb_reg := false; cb_dtor := 0; cb_inctor := false; cb_cthr := None; cb_deq := false |}.
 
 Inductive ev :=
 | EvReq (t : nat) (r : bool)         (* request_stop returned r *)
@@ -149,32 +151,41 @@ Definition add_log (g : shared) (e : ev) : shared :=
 Definition cq (r : cbrec) (b : bool) : cbrec :=
   {| cb_queued := b; cb_finished := cb_finished r; cb_isrem := cb_isrem r; cb_runs := cb_runs r;
      cb_running := cb_running r; cb_ctor := cb_ctor r; cb_reg := cb_reg r; cb_dtor := cb_dtor r;
-     cb_inctor := cb_inctor r |}.
+     cb_inctor := cb_inctor r; cb_cthr := cb_cthr r; cb_deq := cb_deq r |}.
 Definition cfin (r : cbrec) (b : bool) : cbrec :=
   {| cb_queued := cb_queued r; cb_finished := b; cb_isrem := cb_isrem r; cb_runs := cb_runs r;
      cb_running := cb_running r; cb_ctor := cb_ctor r; cb_reg := cb_reg r; cb_dtor := cb_dtor r;
-     cb_inctor := cb_inctor r |}.
+     cb_inctor := cb_inctor r; cb_cthr := cb_cthr r; cb_deq := cb_deq r |}.
 Definition cisrem (r : cbrec) (p : option nat) : cbrec :=
   {| cb_queued := cb_queued r; cb_finished := cb_finished r; cb_isrem := p; cb_runs := cb_runs r;
      cb_running := cb_running r; cb_ctor := cb_ctor r; cb_reg := cb_reg r; cb_dtor := cb_dtor r;
-     cb_inctor := cb_inctor r |}.
+     cb_inctor := cb_inctor r; cb_cthr := cb_cthr r; cb_deq := cb_deq r |}.
 (* execute() entered on thread t *)
 Definition centered (r : cbrec) (t : nat) (inctor : bool) : cbrec :=
   {| cb_queued := cb_queued r; cb_finished := cb_finished r; cb_isrem := cb_isrem r;
      cb_runs := S (cb_runs r); cb_running := Some t; cb_ctor := cb_ctor r; cb_reg := cb_reg r;
-     cb_dtor := cb_dtor r; cb_inctor := inctor |}.
+     cb_dtor := cb_dtor r; cb_inctor := inctor; cb_cthr := cb_cthr r; cb_deq := cb_deq r |}.
 Definition cleft (r : cbrec) : cbrec :=
   {| cb_queued := cb_queued r; cb_finished := cb_finished r; cb_isrem := cb_isrem r;
      cb_runs := cb_runs r; cb_running := None; cb_ctor := cb_ctor r; cb_reg := cb_reg r;
-     cb_dtor := cb_dtor r; cb_inctor := cb_inctor r |}.
+     cb_dtor := cb_dtor r; cb_inctor := cb_inctor r; cb_cthr := cb_cthr r; cb_deq := cb_deq r |}.
 Definition cctor (r : cbrec) (n : nat) (reg : bool) : cbrec :=
   {| cb_queued := cb_queued r; cb_finished := cb_finished r; cb_isrem := cb_isrem r;
      cb_runs := cb_runs r; cb_running := cb_running r; cb_ctor := n; cb_reg := reg;
-     cb_dtor := cb_dtor r; cb_inctor := cb_inctor r |}.
+     cb_dtor := cb_dtor r; cb_inctor := cb_inctor r; cb_cthr := cb_cthr r; cb_deq := cb_deq r |}.
 Definition cdtor (r : cbrec) (n : nat) : cbrec :=
   {| cb_queued := cb_queued r; cb_finished := cb_finished r; cb_isrem := cb_isrem r;
      cb_runs := cb_runs r; cb_running := cb_running r; cb_ctor := cb_ctor r; cb_reg := cb_reg r;
-     cb_dtor := n; cb_inctor := cb_inctor r |}.
+     cb_dtor := n; cb_inctor := cb_inctor r; cb_cthr := cb_cthr r; cb_deq := cb_deq r |}.
+(* ghost only *)
+Definition ccthr (r : cbrec) (o : option nat) : cbrec :=
+  {| cb_queued := cb_queued r; cb_finished := cb_finished r; cb_isrem := cb_isrem r;
+     cb_runs := cb_runs r; cb_running := cb_running r; cb_ctor := cb_ctor r; cb_reg := cb_reg r;
+     cb_dtor := cb_dtor r; cb_inctor := cb_inctor r; cb_cthr := o; cb_deq := cb_deq r |}.
+Definition cdeq (r : cbrec) (b : bool) : cbrec :=
+  {| cb_queued := cb_queued r; cb_finished := cb_finished r; cb_isrem := cb_isrem r;
+     cb_runs := cb_runs r; cb_running := cb_running r; cb_ctor := cb_ctor r; cb_reg := cb_reg r;
+     cb_dtor := cb_dtor r; cb_inctor := cb_inctor r; cb_cthr := cb_cthr r; cb_deq := b |}.
 
 Definition set_pc (l : local) (p : pcs) : local :=
   {| pc := p; frames := frames l; htok := htok l; hsrc := hsrc l |}.
@@ -205,7 +216,7 @@ Definition norm (l : local) : local :=
 Definition q_loop_head (g : shared) (l : local) : shared * local :=
   match cbs g with
   | [] => (g, set_pc l QFinal)
-  | c :: rest => (set_cb (set_cbs g rest) c (cq (cb g c) false), set_pc l (QUnlock c))
+  | c :: rest => (set_cb (set_cbs g rest) c (cdeq (cq (cb g c) false) true), set_pc l (QUnlock c))
   end.
 
 (* destructor of c returns on thread t *)
@@ -227,7 +238,7 @@ Definition dispatch (P : params) (t : nat) (g : shared) (l : local) (o : op) : s
   | OpReq => if (0 <? hsrc l)%nat then (g, set_pc l QLoad) else (g, l)
   | OpAdd c =>
       if Nat.eqb (cb_ctor (cb g c)) 0
-      then (set_cb g c (cctor (cb g c) 1 false), set_pc l (AAddRef c))
+      then (set_cb g c (ccthr (cctor (cb g c) 1 false) (Some t)), set_pc l (AAddRef c))
       else (g, l)
   | OpRem c =>
       if Nat.eqb (cb_ctor (cb g c)) 2 && Nat.eqb (cb_dtor (cb g c)) 0
